@@ -5,6 +5,7 @@ import AptMirror.Model.Vars
   * `C17_vars_resolved`       a successful evaluation leaves no `$` in any setting
   * `C17_vars_keys`           it neither adds, drops nor reorders settings
   * `C17_vars_literal_kept`   a setting without `$` keeps its value
+  * `C17_vars_idempotent`     evaluating the result again changes nothing
   * `C17_vars_direct`         a setting whose references all name settings without `$` gets exactly its one-step
                               substitution against the table as written - whatever the order of the table
   * `C17_vars_direct_order`   ... hence the same value for two tables that define the same settings in different orders
@@ -409,6 +410,24 @@ theorem C17_vars_direct_order (env env' e e' : Env) (hsame : ∀ n, lookup env n
     (hw : subst env v = .ok w) (hwd : hasDollar w = false) : (k, w) ∈ e ∧ (k, w) ∈ e' := by
   refine ⟨C17_vars_direct env e h (k, v) hx w hw hwd, C17_vars_direct env' e' h' (k, v) hx' w ?_ hwd⟩
   exact run_agree env env' (fun name u hl _ => by rw [← hsame]; exact hl) v .text w hw hwd
+
+/-- a pass over a table without `$` changes nothing and finds nothing -/
+theorem pass_noDollar : ∀ (todo done : Env), (∀ x ∈ todo, hasDollar x.2 = false) → pass done todo false = .ok (done ++ todo, false)
+  | [], done, _ => by simp [pass]
+  | (k, v) :: rest, done, h => by
+    have hv : hasDollar v = false := h (k, v) List.mem_cons_self
+    simp only [pass, hv, Bool.false_eq_true, if_false]
+    rw [pass_noDollar rest (done ++ [(k, v)]) (fun x hx => h x (List.mem_cons_of_mem _ hx))]
+    simp
+
+/-- evaluating an evaluated table again changes nothing (the result is a fixed point) -/
+theorem C17_vars_idempotent (env e : Env) (h : substituteVariables env = .ok e) : substituteVariables e = .ok e := by
+  have hr : round e = .ok (e, false) := by
+    have := pass_noDollar e [] (C17_vars_resolved env e h)
+    simpa [round] using this
+  have hunf : substituteVariables e = (round e).bind fun (e, found) => if found then loop 14 e else .ok e := rfl
+  rw [hunf, hr]
+  rfl
 
 /-! ### non-vacuity and the order quirk (concrete tables, evaluated by the kernel) -/
 
